@@ -239,10 +239,17 @@ func CheckC15(run *ev.Run) {
 	run.Assume = append(run.Assume, "the process exit status is non-zero exactly when DiffCommand.Execute returns an error (go-flags main loop, not modelled)",
 		"loading of the two documents (go-openapi/loads) is outside the model")
 	done := 0
+	corpus := CorpusC15()
 	for tries := 0; done < n && tries < n*6; tries++ {
 		g := &G{R: r.Fork(), O: genOptsFor(r)}
-		a := g.Spec()
-		b, elog := g.Mutate(a, 1+g.R.Intn(4))
+		var a, b *Spec
+		var elog EditLog
+		if tries < len(corpus) {
+			a, b, elog = corpus[tries].A, corpus[tries].B, EditLog{"corpus:" + corpus[tries].Name}
+		} else {
+			a = g.Spec()
+			b, elog = g.Mutate(a, 1+g.R.Intn(4))
+		}
 		ja, jb := SwaggerJSON(a), SwaggerJSON(b)
 		s := &Sample{Kind: "pair", A: a, B: b, Log: elog, JA: ja, JB: jb}
 		j0 := lab.runCmd(ja, jb, "json", false, nil)
@@ -417,6 +424,29 @@ func CheckC15(run *ev.Run) {
 			fail("exit:txt-with-ignore", fmt.Sprintf("text mode with ignore file: failed=%v but %d non-ignored Breaking entries", ts.Failed, br), map[string]interface{}{"ignore": subS, "text": ts.Out})
 		}
 		corr("txt-ignore-subset", ts, lab.modelExecute("txt", false, R0, sub))
+		// (g) ignoring one single entry must remove that entry only (entries that differ in one field of the location are
+		// the discriminating cases)
+		singles := 3
+		if len(R0) < singles {
+			singles = len(R0)
+		}
+		for k := 0; k < singles; k++ {
+			idx := g.R.Intn(len(R0))
+			one, _ := json.Marshal([]json.RawMessage{raws[idx]})
+			oneS := string(one)
+			j1 := lab.runCmd(ja, jb, "json", false, &oneS)
+			R1, _, err := ParseReport(j1.Out)
+			var exp []EntryJ
+			for _, e := range R0 {
+				if e.key() != R0[idx].key() {
+					exp = append(exp, e)
+				}
+			}
+			if err != nil || !eqStrs(keysOf(R1), keysOf(exp)) {
+				fail("ignore-single", fmt.Sprintf("ignoring the single entry %s removes %d entries instead of exactly the matching ones", R0[idx].key(), len(R0)-len(R1)),
+					map[string]interface{}{"ignore": oneS, "result": j1.Out})
+			}
+		}
 		run.Case(fmt.Sprintf("%s|%d/%d", strings.Join(codes, ","), len(sub), len(R0)))
 		st[fmt.Sprintf("entries:%d", min(len(R0), 6))]++
 		if breaking0 > 0 {
